@@ -197,8 +197,9 @@ def _drive(sim, plan, known, hit):
   hostpos = [tuple(h) for h in cfg["hosts"]]
   for sw, port in hostpos:
     net.add_host(sw, port)
+  spare_of = dict(cfg["spare"])     # (changes with host moves; never the plan)
   for i in range(1, nsw + 1):
-    net.add_host(i, cfg["spare"][str(i)])
+    net.add_host(i, spare_of[str(i)])
   sim.drain()
   sim.advance(1.0)
   sim.drain()
@@ -397,9 +398,9 @@ def _drive(sim, plan, known, hit):
       quiesce()
       h = st["host"] % len(hostpos)
       sw, port = hostpos[h]
-      spare = cfg["spare"][str(sw)]
+      spare = spare_of[str(sw)]
       hostpos[h] = (sw, spare)
-      cfg["spare"][str(sw)] = port
+      spare_of[str(sw)] = port
       sim.probes["host_moved"] += 1
     elif op == "reset":
       if faults:
